@@ -681,12 +681,12 @@ def run(ctx):
         ctx.exhaustive["L1_scope"] = True
         # a re-import transition does not carry the case: index the export transitions by their case
         keyed = sorted(trs, key=lambda t: core.stable_hash([ctx.seed, t["cs"], t["op"]]))
-        chosen = keyed[:ctx.pick(1200, 45000)]
+        chosen = keyed[:ctx.pick(1200, 24000)]
         ctx.exhaustive["L2_transitions"] = len(chosen) == len(keyed)
         ctx.extra["transitions_emitted"] = len(trs)
         ctx.extra["transitions_replayed"] = len(chosen)
         r = Runner(ctx)
-        nfile = ctx.pick(200, 4000)
+        nfile = ctx.pick(200, 2500)
         nf = 0
         for i, tr in enumerate(chosen):
             do_file = tr["op"] == "export" and nf < nfile
@@ -700,15 +700,15 @@ def run(ctx):
             sizes = [rng.randint(1, 10) for _ in range(60)] + [rng.randint(11, 100) for _ in range(8)] + [300, 300]
             nfiles = 30
         else:
-            sizes = [rng.randint(1, 10) for _ in range(1500)] + [rng.randint(11, 300) for _ in range(200)] + [300] * 12
-            nfiles = 500
+            sizes = [rng.randint(1, 10) for _ in range(1000)] + [rng.randint(11, 300) for _ in range(120)] + [300] * 8
+            nfiles = 350
         ctx.extra["seeded_lists"] = run_seeded(ctx, sizes, nfiles)
     if want("float"):
         rng = ctx.rng
         if ctx.quick:
             sizes = [rng.randint(1, 8) for _ in range(70)] + [rng.randint(9, 80) for _ in range(8)] + [300]
         else:
-            sizes = [rng.randint(1, 8) for _ in range(1500)] + [rng.randint(9, 300) for _ in range(150)] + [300] * 8
+            sizes = [rng.randint(1, 8) for _ in range(1000)] + [rng.randint(9, 300) for _ in range(90)] + [300] * 6
         cases = [gen_float_case(rng, i + 1, n) for i, n in enumerate(sizes)]
         for s in range(0, len(cases), 400):
             run_float(ctx, cases[s:s + 400], name="resid%d" % s)
